@@ -1424,3 +1424,38 @@ Proof.
   rewrite H. pose proof (flush_run_invariant R evs [] []) as Hi. destruct (flush_run [] [] evs) as [f b].
   cbn [fst]. rewrite Hi. reflexivity.
 Qed.
+
+(* =================================================================================================
+   I. quaternion metric used for the deviations: q and -q are the same rotation
+   ================================================================================================= *)
+Section QuatMetric.
+  Local Open Scope R_scope.
+  Lemma vdot_opp : forall a b : list R, vdot Rops (map Ropp a) b = - vdot Rops a b.
+  Proof.
+    induction a as [|x a IH]; intros b; cbn [map vdot Rops n0]; [ring|].
+    destruct b as [|y b]; cbn [vdot Rops n0 nadd nmul]; [ring|]. rewrite IH. cbn [Rops nadd nmul]. ring.
+  Qed.
+
+  Lemma acos_m1 : acos (- (1)) = PI.
+  Proof. rewrite acos_opp, acos_1. ring. Qed.
+
+  Lemma quat_dist2_antipodal : forall a b : list R, -1 <= vdot Rops a b <= 1 ->
+    lv_dist2 Rops KQuat (map Ropp a) b = lv_dist2 Rops KQuat a b.
+  Proof.
+    intros a b Hc. unfold lv_dist2. rewrite vdot_opp. set (c := vdot Rops a b) in *.
+    cbn [Rops nltb n1 n0 nneg nacos nsub nmul].
+    assert (C1 : Rltb 1 c = false) by (apply Rltb_false; lra).
+    assert (C2 : Rltb c (- (1)) = false) by (apply Rltb_false; lra).
+    assert (C3 : Rltb 1 (- c) = false) by (apply Rltb_false; lra).
+    assert (C4 : Rltb (- c) (- (1)) = false) by (apply Rltb_false; lra).
+    rewrite C1, C2, C3, C4, acos_m1, acos_opp.
+    destruct (Rlt_dec 0 c) as [Hp|Hp].
+    - replace (Rltb 0 c) with true by (symmetry; apply Rltb_true; exact Hp).
+      replace (Rltb 0 (- c)) with false by (symmetry; apply Rltb_false; lra). ring.
+    - replace (Rltb 0 c) with false by (symmetry; apply Rltb_false; lra).
+      destruct (Rlt_dec c 0) as [Hn|Hn].
+      + replace (Rltb 0 (- c)) with true by (symmetry; apply Rltb_true; lra). ring.
+      + replace (Rltb 0 (- c)) with false by (symmetry; apply Rltb_false; lra).
+        assert (Hz : c = 0) by lra. rewrite Hz, acos_0. field.
+  Qed.
+End QuatMetric.
